@@ -165,12 +165,28 @@ def O_val(ty, t):
     return sort_of(ty).v(t)
 
 
+def R_get(ty, t, f):
+    return getattr(sort_of(ty), f)(t)
+
+
+def R_mk(ty, **kw):
+    return sort_of(ty).mk(*[kw[fn] for fn, _ in ty.fields])
+
+
+def rec_field(v, f):
+    """field f of a record value, as V"""
+    return V(v.ty.ftype(f), R_get(v.ty, v.t, f))
+
+
 def T_get(ty, t, i):
     return getattr(sort_of(ty), 'f%d' % i)(t)
 
 
 def T_mk(ty, *xs):
     return sort_of(ty).mk(*xs)
+
+
+REC_INVARIANTS = {}
 
 
 def wf(v, depth=0):
@@ -194,6 +210,12 @@ def wf(v, depth=0):
     elif isinstance(ty, TupleT):
         for i, et in enumerate(ty.elems):
             out += wf(V(et, T_get(ty, t, i)), depth)
+    elif isinstance(ty, RecT):
+        for fn, ft in ty.fields:
+            out += wf(V(ft, R_get(ty, t, fn)), depth)
+        inv = REC_INVARIANTS.get(ty.name)
+        if inv is not None:
+            out += inv(V(ty, t))
     elif isinstance(ty, DictT) and depth < 2 and isinstance(ty.v, (ListT,)):
         k = z3.Const('k!wf%d' % depth, sort_of(ty.k))
         inner = wf(V(ty.v, D_get(ty, t, k)), depth + 1)
